@@ -43,12 +43,41 @@ class DuplicateLabel(Exception):
 
 class Net:
     """ghost network: per directed connection, messages keyed by label"""
-    def __init__(self):
+    def __init__(self, schedule=None):
         self.sent = []        # (src, dst, pc, payload) in send order
         self.box = {}         # delivered but not yet received
         self.wait = {}        # receive posted, message not yet sent
         self.received = []    # (src, dst, pc)
         self.errors = []
+        # delivery schedule (C08): None = every message is delivered at the moment it is sent; otherwise a random.Random: sent messages wait in a
+        # FIFO queue per directed connection and are delivered one at a time, from a randomly chosen connection, between steps of the event loop
+        self.schedule = schedule
+        self.queues = {}      # (src, dst) -> [(pc, payload)] in send order
+
+    def deliver(self, src, dst, pc, payload):
+        key = (src, dst, pc)
+        if any(k == key for k in self.received) or key in self.box:
+            self.errors.append(('duplicate-label', key)); raise DuplicateLabel(key)
+        if key in self.wait:
+            self.received.append(key)
+            self.wait.pop(key).set_result(payload)
+        else:
+            self.box[key] = payload
+
+    def pending(self):
+        return sum(len(q) for q in self.queues.values())
+
+    def pump(self, n=1):
+        """deliver up to n queued messages: each time the head of a randomly chosen nonempty connection queue (FIFO per connection)"""
+        done = 0
+        while done < n:
+            live = sorted(k for k, q in self.queues.items() if q)
+            if not live: break
+            src, dst = self.schedule.choice(live)
+            pc, payload = self.queues[(src, dst)].pop(0)
+            self.deliver(src, dst, pc, payload)
+            done += 1
+        return done
 
     def leftovers(self):
         return dict(unreceived=sorted((k for k in self.box), key=repr), unmatched_receives=sorted((k for k in self.wait), key=repr))
@@ -63,6 +92,9 @@ class GhostProto:
     def send(self, pc, payload):
         key = (self.me, self.peer, pc)
         self.net.sent.append((self.me, self.peer, pc, payload))
+        if self.net.schedule is not None:
+            self.net.queues.setdefault((self.me, self.peer), []).append((pc, payload))
+            return
         if any(k == key for k in self.net.received) or key in self.net.box:
             self.net.errors.append(('duplicate-label', key)); raise DuplicateLabel(key)
         if key in self.net.wait:
@@ -92,11 +124,11 @@ def clear_caches():
         if c is not None and hasattr(c, 'cache_clear'): c.cache_clear()
 
 
-def make_parties(m, t, no_prss=False, k=8, keys=None):
+def make_parties(m, t, no_prss=False, k=8, keys=None, schedule=None):
     """m real Runtimes with ghost network; PRSS keys placed by hand (the handshake itself is C16's subject)."""
     M = modules(); rtmod = M['rtmod']
     loop = asyncio.new_event_loop(); asyncio.set_event_loop(loop)
-    net = Net(); rts = []
+    net = Net(schedule); rts = []
     base = _state['base_options']
     if keys is None:
         keys = {S: bytes([i % 251 + 1] * 16) for i, S in enumerate(itertools.combinations(range(m), m - t))}
@@ -125,7 +157,7 @@ class PartyFailure(Exception):
 BLOCKED = 'BLOCKED'
 
 
-def run_all(loop, rts, prog, max_steps=2_000_000, allow_blocked=False):
+def run_all(loop, rts, prog, max_steps=2_000_000, allow_blocked=False, net=None):
     """run prog(rt) for all parties; returns list of results.  Steps the loop manually: detects deadlock
     (no ready handle while some party unfinished) and captures exceptions inside any coroutine."""
     tasks = []
@@ -144,7 +176,14 @@ def run_all(loop, rts, prog, max_steps=2_000_000, allow_blocked=False):
     while not all(t.done() for t in tasks):
         if errors and not (allow_blocked == 'continue'):
             break
-        if not loop._ready and not loop._scheduled:
+        if net is not None and net.schedule is not None and net.pending():
+            # delivery schedule: between two steps of the event loop deliver a random number of queued messages (at least one if nothing else can run)
+            idle = not loop._ready and not loop._scheduled
+            try:
+                net.pump(1 if idle else net.schedule.choice((0, 0, 0, 1, 1, 2, 4)))
+            except DuplicateLabel as e:
+                errors.append(('duplicate label', e, f'DuplicateLabel{e}'))
+        if not loop._ready and not loop._scheduled and not (net is not None and net.schedule is not None and net.pending()):
             pend = [i for i, t in enumerate(tasks) if not t.done()]
             if allow_blocked:
                 out = [BLOCKED if not t.done() else (t.result() if t.exception() is None else ('EXC', repr(t.exception()))) for t in tasks]
